@@ -28,7 +28,7 @@ REGISTRY = dict(
           "from the regenerated _setup_learn statements; minibatches per pass = ceil(N/b) and PPO's truncated-minibatch warning law; DQN exploration schedule range/monotonicity; off-policy: no train() at or before learning_starts, gradient steps = configured value or (for -1) the timesteps of that rollout, never 0. "
           "Tie: guards, increments, gate and selection expressions are regenerated from /repo on every run + counting correspondence on the six algorithms."),
     note=("Trusted: Coq 8.16.1 kernel (vm_compute, no native_compute), translate/py2coq.py + specs/learnloop.py, harness/c12.py, Python/numpy/torch. "
-          "Not verified: float evaluation of 1 - num/total (compared with the rational model at 1e-12), the optimizer and autograd, PPO's early stop by target_kl (only the upper bound on updates is checked then), "
+          "CORRESPONDENCE-ONLY (no theorem; partial): each update uses the schedule value as learning rate (lr read on every optimizer and parameter group at every update, two user schedules, one non-linear), the value of approx_kl_div that triggers the early stop of PPO (loops, test and break are modelled and regenerated, its argument is an oracle), rollout lengths under an episodic train_freq. Not verified: float evaluation of 1 - num/total (compared with the rational model at 1e-12), the optimizer and autograd, PPO's early stop by target_kl (only the upper bound on updates is checked then), "
           "the rollout length under an episodic train_freq (computed by the harness from the scripted episode length, n_envs = 1). 'each update uses the schedule's value' is tied by correspondence only "
           "(lr recorded at every optimizer.step). All C12 theorems are closed under the global context (no axioms)."),
     technique="machine-checked proof in Coq (loop invariants by induction, rational arithmetic) + regenerated-fragment interface lemmas + counting correspondence on real learn() calls",
@@ -43,8 +43,9 @@ Local Open Scope Z_scope.
 ON = ("A2C", "PPO")
 
 
-def lr_of(p):
-    return 1e-3 * (1.0 + p)
+def lr_of(p, kind="linear"):
+    """the user-supplied learning-rate schedules of the campaign: linear, or a non-linear (discontinuous) one"""
+    return 1e-3 * (1.0 + p) if kind == "linear" else 1e-3 * (1.0 + p * p) + 2e-4 * (p > 0.5)
 
 
 # ---------------------------------------------------------------- generator
@@ -52,7 +53,7 @@ def lr_of(p):
 def gen_run(rng, i):
     algo = rng.choice(["A2C", "PPO", "PPO", "DQN", "DQN", "SAC", "TD3", "DDPG"])
     n_envs = rng.choice([1, 1, 2, 3])
-    cfg = {"id": i, "algo": algo, "n_envs": n_envs, "ep_len": rng.choice([3, 4, 5, 7])}
+    cfg = {"id": i, "algo": algo, "n_envs": n_envs, "ep_len": rng.choice([3, 4, 5, 7]), "sched": rng.choice(["linear", "quad"])}
     if algo in ON:
         cfg["n_steps"] = rng.choice([2, 3, 4, 5, 8])
         N = cfg["n_steps"] * n_envs
@@ -118,7 +119,7 @@ def run_impl(cfg):
 
     def lr_fn(p):
         rec["lr_args"].append(float(p))
-        return lr_of(float(p))
+        return lr_of(float(p), cfg.get("sched", "linear"))
 
     def clip_fn(p):
         rec["clip_args"].append(float(p))
@@ -136,12 +137,17 @@ def run_impl(cfg):
         okw = dict(train_freq=tf, gradient_steps=cfg["gradient_steps"], learning_starts=cfg["learning_starts"], batch_size=4, buffer_size=200, **kw)
         model = {"DQN": sb3.DQN, "SAC": sb3.SAC, "TD3": sb3.TD3, "DDPG": sb3.DDPG}[algo]("MlpPolicy", venv, **okw)
     tick_opt = model.policy.optimizer if algo in ("A2C", "PPO", "DQN") else model.critic.optimizer
+    all_opts = [model.policy.optimizer] if algo in ("A2C", "PPO", "DQN") else [model.actor.optimizer, model.critic.optimizer]
+    if algo == "SAC" and model.ent_coef_optimizer is not None:
+        all_opts.append(model.ent_coef_optimizer)
     cur = {"train": None}
     orig_step = tick_opt.step
 
     def step(*a, **k):
         if cur["train"] is not None:
             cur["train"]["opt_lrs"].append(float(tick_opt.param_groups[0]["lr"]))
+            lrs = [float(g["lr"]) for o in all_opts for g in o.param_groups]
+            cur["train"]["lr_spread"].append([min(lrs), max(lrs)])
         return orig_step(*a, **k)
 
     tick_opt.step = step
@@ -150,7 +156,7 @@ def run_impl(cfg):
 
     def train(*a, **k):
         t = {"num": int(model.num_timesteps), "gs": k.get("gradient_steps", a[0] if a else None),
-             "progress": float(model._current_progress_remaining), "opt_lrs": [], "lr_args_before": len(rec["lr_args"])}
+             "progress": float(model._current_progress_remaining), "opt_lrs": [], "lr_spread": [], "lr_args_before": len(rec["lr_args"])}
         cur["train"] = t
         try:
             return orig_train(*a, **k)
@@ -289,9 +295,12 @@ def oracle(cfg, impl):
             want_p = max(0.0, 1.0 - t["num"] / target)
             if abs(t["progress"] - want_p) > 1e-12:
                 probs.append(("oracle-progress-value", f"{where}: progress at train() = {t['progress']!r} with num_timesteps {t['num']} of {target}, expected {want_p!r}"))
-            bad = [lr for lr in t["opt_lrs"] if abs(lr - lr_of(t["progress"])) > 1e-15 + 1e-12 * lr_of(1.0)]
+            want_lr = lr_of(t["progress"], cfg.get("sched", "linear"))
+            seen = [lr for lo_hi in t["lr_spread"] for lr in lo_hi] + list(t["opt_lrs"])
+            bad = [lr for lr in seen if abs(lr - want_lr) > 1e-15 + 2e-15]
             if bad:
-                probs.append(("oracle-lr-not-schedule-value", f"{where}: optimizer lr {bad[0]!r} at an update, schedule(progress={t['progress']!r}) = {lr_of(t['progress'])!r}"))
+                probs.append(("oracle-lr-not-schedule-value", f"{where}: an optimizer has lr {bad[0]!r} at an update, schedule(progress={t['progress']!r}) = {want_lr!r} "
+                                                              f"(every optimizer and parameter group is read)"))
         # (5) progress handed to schedules: in [0,1], never increasing during the call
         seqs = [("learning-rate schedule", rc["lr_args"]), ("clip-range schedule", rc["clip_args"]),
                 ("progress at train()", [t["progress"] for t in rc["trains"]] + ([rc["end_progress"]] if rc["nums"] else []))]
